@@ -417,11 +417,21 @@ func (sc *scenario) pagesIn(proj map[string]any) int { return sc.msg.pagesPresen
 // observed state is exactly that prefix.
 func (sc *scenario) pagesDurable(before, proj map[string]any, syncs, n int) int {
 	if sc.kind == "msg" {
-		p, b := sc.pagesIn(proj), sc.pagesIn(before)
-		if p != b {
-			return p
+		// the last page of the stream that is present now and was not before; without one, as many
+		// leading pages as were already there (at most the number of syncs seen)
+		pages := sc.msgPages()
+		k := 0
+		for i, pg := range pages {
+			if pg.present(proj) && !pg.present(before) {
+				k = i + 1
+			}
 		}
-		return min(syncs, p)
+		if k == 0 {
+			for k < len(pages) && k < syncs && pages[k].present(proj) {
+				k++
+			}
+		}
+		return k
 	}
 	match := func(k int) bool { return kit.Diff(sc.metaExpect(before, k), proj) == "" }
 	if syncs <= n && match(syncs) {
@@ -433,6 +443,50 @@ func (sc *scenario) pagesDurable(before, proj map[string]any, syncs, n int) int 
 		}
 	}
 	return min(syncs, n)
+}
+
+// msgPage is one install page of the exported message stream: the catalogue entry of a channel
+// or a batch of its rows (model units).
+type msgPage struct {
+	c    string
+	rows []int64 // empty for a metadata page
+}
+
+func (pg msgPage) present(proj map[string]any) bool {
+	p := kit.Map(kit.Map(proj, "t"), pg.c)
+	if len(pg.rows) == 0 {
+		return kit.Bool(p, "cat")
+	}
+	have := map[int64]bool{}
+	for _, x := range kit.List(p, "rows") {
+		have[kit.ToInt(x)] = true
+	}
+	for _, r := range pg.rows {
+		if !have[r] {
+			return false
+		}
+	}
+	return true
+}
+
+func (sc *scenario) msgPages() []msgPage {
+	var out []msgPage
+	for _, c := range chanNames {
+		r, ok := sc.expRows[c]
+		if !ok {
+			continue
+		}
+		out = append(out, msgPage{c: c})
+		var cur []int64
+		for s := r[0] + 1; s <= r[1]; s++ {
+			cur = append(cur, int64(s))
+			if len(cur) == sc.ps || s == r[1] {
+				out = append(out, msgPage{c: c, rows: cur})
+				cur = nil
+			}
+		}
+	}
+	return out
 }
 
 // metaExpect is the metadata target after k pages of the exported stream were installed over
